@@ -6,6 +6,7 @@
 import CrCube.Lemmas.SpecFacts
 import CrCube.Lemmas.Tensor
 import CrCube.Props.C06
+import CrCube.Lemmas.Slice1Var
 
 namespace CrCube.C01
 open CrCube
@@ -80,6 +81,22 @@ theorem flat_payload_reshape (vars : List Var) (s : Survey) (ix : List Nat)
     (h : InRange (rawShapeOf vars) ix) :
     (FT.ofFlat (rawShapeOf vars) (cubeFlat vars s)).get ix = (cubeOf vars s).get ix :=
   FT.ofFlat_flat (cubeOf vars s) ix h
+
+/-- 1-D (strand): the count of row i is the weighted number of respondents in element i
+    (who selected item i, for multiple response). -/
+theorem strand_counts_faithful (V : Var) (hV : V.CM) (s : Survey) (i : Nat) (hi : i < V.ext) :
+    (strandCounts [V] (cubeOf [V] s)).counts i = .fin (specCount [V] s [i] [false]) :=
+  strand_counts_spec V hV s i hi
+
+theorem strand_extent (V : Var) (hV : V.CM) (raw : FT) : (strandCounts [V] raw).n = V.ext :=
+  strand_n V hV raw
+
+/-- categorical array (items × categories, one variable): cell (i, j) counts the respondents
+    whose answer on sub-variable i is valid category j. -/
+theorem ca_counts_faithful (V : Var) (hV : V.IsCA) (s : Survey) (i j : Nat) (hi : i < V.n)
+    (hj : j < (validIdxs V.catMissing).length) :
+    (sliceCounts [V] (cubeOf [V] s) 0).counts i j = .fin (specCount [V] s [i, j] [false, false]) :=
+  ca_counts_spec V hV s i j hi hj false
 
 -- non-vacuity: categorical rows with a missing category in mid-payload × multiple response
 example : (⟨.cat, 3, [false, true, false], false⟩ : Var).CM ∧
